@@ -177,6 +177,7 @@ func checkC10(env *Env) []Violation {
 		}
 		snapByTask[k][task] = append(snapByTask[k][task], d)
 	}
+	histWant := map[string]*swHist{}
 	lastPassSeq := 0
 	execOK, execErr := 0, 0
 	var callScope *scopeVar
@@ -276,7 +277,29 @@ func checkC10(env *Env) []Violation {
 					out = append(out, vf("stopwatch-wrong-elapsed", "stopwatch on %q recorded %v, elapsed between Start and Stop was between %v and %v", mv.FullName, d, lo, hi))
 				}
 			}
-			// duration-histogram stopwatches are checked through the sample's bucket below
+			// duration-histogram stopwatch: the sample must land in a bucket that
+			// contains an elapsed time between lo and hi (checked after the settle step)
+			if mv.kind == "hist" && lv == live && mv.spec != nil && mv.spec.Dur {
+				k := idKey(mv.FullName, mv.Tags)
+				t := TilingOf(mv.spec, env.Prog.Cfg.DefBuckets)
+				a, b := t.IndexD(int64(lo)), t.IndexD(int64(hi))
+				hw := histWant[k]
+				if hw == nil {
+					hw = &swHist{name: mv.FullName, tags: mv.Tags, til: t, min: make([]int64, t.N()), max: make([]int64, t.N())}
+					histWant[k] = hw
+				}
+				ob := ci.obligation(mv, r)
+				if a == b && ob == required {
+					hw.min[a]++
+				}
+				for i := a; i <= b; i++ {
+					hw.max[i]++
+				}
+				hw.total++
+				if ob != required {
+					hw.loose = true
+				}
+			}
 		case "exec":
 			res, _ := r.Extra.(*execResult)
 			if res == nil || r.Ret == 0 {
@@ -358,6 +381,36 @@ func checkC10(env *Env) []Violation {
 			}
 		}
 	}
+	// stopwatches on duration histograms (only this profile's "dh" histograms, which
+	// receive stopwatch samples only)
+	if _, settled, ok := opWindow(ops, "settle"); ok && !isTest {
+		got := map[string]map[int64]int64{}
+		for _, d := range env.Deliveries() {
+			if d.Kind == EvHDur && d.Ev.Seq < settled {
+				k := idKey(d.Name, d.Tags)
+				if got[k] == nil {
+					got[k] = map[int64]int64{}
+				}
+				got[k][int64(d.HiD)] += d.I
+			}
+		}
+		for k, hw := range histWant {
+			if hw.loose {
+				continue
+			}
+			var total int64
+			for i := 0; i < hw.til.N(); i++ {
+				n := got[k][hw.til.UD[i]]
+				total += n
+				if n < hw.min[i] || n > hw.max[i] {
+					out = append(out, vf("stopwatch-histogram-bucket", "duration histogram %q %v: bucket <= %v received %d stopwatch samples, elapsed times allow %d..%d", hw.name, hw.tags, time.Duration(hw.til.UD[i]), n, hw.min[i], hw.max[i]))
+				}
+			}
+			if total != hw.total {
+				out = append(out, vf("stopwatch-histogram-count", "duration histogram %q %v: %d stopwatches stopped, %d samples delivered", hw.name, hw.tags, hw.total, total))
+			}
+		}
+	}
 	// test scopes: timer values are kept, in order, and visible in the snapshot
 	if isTest {
 		var snap *SnapCopy
@@ -396,4 +449,13 @@ func checkC10(env *Env) []Violation {
 		}
 	}
 	return out
+}
+
+type swHist struct {
+	name     string
+	tags     map[string]string
+	til      *Tiling
+	min, max []int64
+	total    int64
+	loose    bool
 }
